@@ -268,7 +268,7 @@ def run_assign(case, stt):
 def copy_case(draw):
     spec = draw(G.signal_spec(nmin=0, nmax=6, nchan_max=4, max_trailing=1))
     return {"sig": spec, "how": draw(st.sampled_from(["like", "like_data", "pickle", "compute", "persist", "to_dask_array", "rechunk", "rechunk_arg",
-                                                      "dask_pickle", "dask_compute", "like_other_class", "copy", "deepcopy", "dask_deepcopy"])),
+                                                      "dask_pickle", "dask_compute", "like_other_class", "copy", "deepcopy", "dask_deepcopy", "opaque_meta"])),
             # history: after the first copy one attribute of the ORIGINAL is re-assigned and the copy is taken again
             "again": draw(st.sampled_from([None, "pol_type", "center_freq", "start_time", "freq_align", "meta", "sample_rate"])), "t": draw(G.time0())}
 
@@ -281,6 +281,23 @@ def run_copy(case, stt):
     z = G.build(spec)
     how = case["how"]
     want_dask = None
+    if how == "opaque_meta":
+        # meta is any dict: its values may be objects that compare by identity and cannot be duplicated (a lock, a handle, a user object).  The
+        # dict is accepted, and like() / slices / in-process helpers carry it unchanged (== on such values means "the same object")
+        import threading
+
+        vals = {"lock": threading.Lock(), "handle": object(), "gen": (i for i in range(3)), "n": 1}
+        with lib("assigning a dict with opaque values as meta"):
+            z.meta = dict(vals)
+        for w, f in (("like", lambda: type(z).like(z)), ("time slice", lambda: z[:1]), ("compute", lambda: z.compute()), ("to_dask_array", lambda: z.to_dask_array()),
+                     ("like(data)", lambda: type(z).like(z, z.data.copy()))):
+            with lib(w + " of a signal whose meta holds opaque values"):
+                y = f()
+            check(y.meta == vals and all(y.meta[k] is v for k, v in vals.items()), "{}: meta values are not the attached objects: {} vs {}", w, y.meta, vals)
+        check(z.meta == vals, "the signal's own meta changed: {}", z.meta)
+        stt.nt()
+        stt.label(how)
+        return
     with lib(how):
         if how == "like":
             y = type(z).like(z)
